@@ -485,6 +485,24 @@ func firstDiff(a, b []byte) string {
 
 func levelName(l int) string { return fmt.Sprintf("L%d", l) }
 
+// flaky is a destination whose failAt-th Write call (0-based) fails without
+// taking a byte; every other call succeeds.
+type flaky struct {
+	failAt int
+	calls  int
+	buf    []byte
+}
+
+func (f *flaky) Write(p []byte) (int, error) {
+	i := f.calls
+	f.calls++
+	if i == f.failAt {
+		return 0, tx.ErrInjected
+	}
+	f.buf = append(f.buf, p...)
+	return len(p), nil
+}
+
 // ---------------------------------------------------------------------------
 // TestRoundTrip: writer output vs independent inflater (A), reader vs own
 // output (B-i) and vs independent encoder output (B-ii).
@@ -591,6 +609,59 @@ func TestRoundTrip(t *testing.T) {
 		}
 		if !bytes.Equal(got, payload) {
 			t.Fatalf("own output of %s level %d served as %+v: recovered a different message: %s", pat, level, plan1, firstDiff(got, payload))
+		}
+
+		// transient destination failure: call i fails once, later calls succeed. Either the
+		// writer reports it, or what was delivered still is the whole message.
+		if ncalls := len(rec.Calls); ncalls > 0 && !big {
+			var at []int
+			if ncalls <= 12 {
+				for i := 0; i < ncalls; i++ {
+					at = append(at, i)
+				}
+			} else {
+				for k := 0; k < 6; k++ {
+					at = append(at, rapid.IntRange(0, ncalls-1).Draw(t, "fail-at"))
+				}
+			}
+			for _, fi := range at {
+				hx.Eval()
+				fl := &flaky{failAt: fi}
+				fwr := wsflate.NewWriter(fl, rechunkCtor(level, plan))
+				reported := false
+				for _, o := range pat.Ops {
+					var err error
+					switch o.Kind {
+					case 'w':
+						_, err = fwr.Write(o.Data)
+					case 'f':
+						err = fwr.Flush()
+					case 'c':
+						err = fwr.Close()
+					}
+					if err != nil {
+						reported = true
+						break
+					}
+				}
+				if fwr.Err() != nil {
+					reported = true
+				}
+				if reported {
+					hx.Class("roundtrip/transient-dest-error=reported")
+					continue
+				}
+				if fl.calls <= fi {
+					hx.Class("roundtrip/transient-dest-error=not-reached")
+				} else {
+					hx.Class("roundtrip/transient-dest-error=UNREPORTED")
+				}
+				got, msg := inflateMessage(fl.buf, closed)
+				if msg != "" || !bytes.Equal(got, payload) {
+					t.Fatalf("%s level %d (compressor output delivered as %v) payload %s(%d): destination call %d of %d failed once; every Write/Flush/Close and Err() reported success, but the delivered bytes ++ 0000ffff are not the message: %s %s",
+						pat, level, plan, class, len(payload), fi, ncalls, msg, firstDiff(got, payload))
+				}
+			}
 		}
 
 		// the same through the helper's one-shot decompression
@@ -1183,6 +1254,9 @@ func (b *badCompressor) Write(p []byte) (int, error) {
 	if err != nil {
 		return n, err
 	}
+	if b.mode == "tiny" && b.flushes >= b.goodFor {
+		return n, nil // output is thrown away at the flush
+	}
 	if b.mode != "truncate" {
 		// truncation needs the whole flush output staged; the others stream
 		if err := b.forward(0); err != nil {
@@ -1204,6 +1278,10 @@ func (b *badCompressor) Flush() error {
 	switch b.mode {
 	case "noop", "passthrough":
 		return nil
+	case "tiny": // fewer than 4 bytes instead of the flush output
+		b.stage.Reset()
+		_, err := b.out.Write(b.extra)
+		return err
 	case "append":
 		if err := b.fw.Flush(); err != nil {
 			return err
@@ -1236,6 +1314,10 @@ func (b *badCompressor) Close() error {
 	switch b.mode {
 	case "noop", "passthrough":
 		return nil
+	case "tiny": // fewer than 4 bytes instead of the flush output
+		b.stage.Reset()
+		_, err := b.out.Write(b.extra)
+		return err
 	case "append":
 		if err := b.fw.Close(); err != nil {
 			return err
@@ -1256,7 +1338,7 @@ func (b *badCompressor) Close() error {
 
 func TestBadCompressor(t *testing.T) {
 	hx.Check(t, 4, func(t *rapid.T) {
-		mode := rapid.SampledFrom([]string{"noop", "noop", "passthrough", "passthrough", "append", "append", "truncate", "truncate", "good"}).Draw(t, "mode")
+		mode := rapid.SampledFrom([]string{"noop", "noop", "passthrough", "passthrough", "append", "append", "truncate", "truncate", "tiny", "tiny", "good"}).Draw(t, "mode")
 		class, payload := genPayload(t, rapid.IntRange(0, 3).Draw(t, "allowbig") == 0)
 		level := genLevel(t, "level")
 		goodFor := rapid.SampledFrom([]int{0, 0, 0, 1, 2}).Draw(t, "goodfor")
@@ -1266,30 +1348,61 @@ func TestBadCompressor(t *testing.T) {
 		if rapid.IntRange(0, 2).Draw(t, "rechunk") != 0 {
 			plan = genChunkPlan(t, "plan")
 		}
+		var extra []byte
+		drop := 0
+		switch mode {
+		case "append":
+			switch rapid.IntRange(0, 4).Draw(t, "extra.kind2") {
+			case 0:
+				extra = []byte{0}
+			case 1:
+				extra = []byte{0xff}
+			case 2:
+				extra = []byte{0x00, 0x00, 0xff} // shifted marker
+			case 3:
+				extra = append([]byte{0x01}, tail...) // looks like a final block: ends in the tail again
+			default:
+				extra = rapid.SliceOfN(rapid.Byte(), 1, 6).Draw(t, "extra.bytes")
+			}
+		case "tiny":
+			extra = rapid.SampledFrom([][]byte{{0}, {0, 0}, {0, 0, 0xff}, {0xff}, {0xff, 0xff}, {0, 0xff, 0xff}, {1}, {0, 1}}).Draw(t, "tiny.bytes")
+		case "truncate":
+			drop = rapid.IntRange(1, 5).Draw(t, "drop")
+		}
+		// reuse: a good message with a well-behaved compressor first, then Reset, then the misbehaviour
+		reuse := rapid.IntRange(0, 2).Draw(t, "reuse")
+		prelude := reuse != 0
 		ctor := func(w io.Writer) wsflate.Compressor {
 			em = &emission{w: w}
-			bc = &badCompressor{mode: mode, out: em, goodFor: goodFor, plan: plan}
+			m := mode
+			if prelude {
+				m = "good"
+			}
+			bc = &badCompressor{mode: m, out: em, goodFor: goodFor, plan: plan, extra: extra, drop: drop}
 			bc.fw, _ = flate.NewWriter(&bc.stage, level)
 			return bc
 		}
 		rec := tx.NewRec()
-		w := wsflate.NewWriter(rec, ctor)
-		if mode == "append" {
-			switch rapid.IntRange(0, 4).Draw(t, "extra.kind2") {
-			case 0:
-				bc.extra = []byte{0}
-			case 1:
-				bc.extra = []byte{0xff}
-			case 2:
-				bc.extra = []byte{0x00, 0x00, 0xff} // shifted marker
-			case 3:
-				bc.extra = append([]byte{0x01}, tail...) // looks like a final block: ends in the tail again
-			default:
-				bc.extra = rapid.SliceOfN(rapid.Byte(), 1, 6).Draw(t, "extra.bytes")
+		var w *wsflate.Writer
+		if prelude {
+			w = wsflate.NewWriter(tx.NewRec(), ctor)
+			if _, err := w.Write([]byte("previous message")); err != nil {
+				t.Fatalf("prelude Write: %v", err)
 			}
-		}
-		if mode == "truncate" {
-			bc.drop = rapid.IntRange(1, 5).Draw(t, "drop")
+			if err := w.Flush(); err != nil {
+				t.Fatalf("prelude Flush with a conforming compressor: %v", err)
+			}
+			if reuse == 2 {
+				if err := w.Close(); err != nil {
+					t.Fatalf("prelude Close with a conforming compressor: %v", err)
+				}
+			}
+			prelude = false
+			w.Reset(rec) // the compressor offers no Reset, so the constructor runs again
+			hx.Class("bad/writer=reused")
+		} else {
+			w = wsflate.NewWriter(rec, ctor)
+			hx.Class("bad/writer=fresh")
 		}
 		// history: writes and flushes, a few more calls after the end
 		pieces := gen.Split(t, "split", payload, 4)
@@ -1345,8 +1458,8 @@ func TestBadCompressor(t *testing.T) {
 				endsInTail := bytes.HasSuffix(em.all, tail)
 				switch {
 				case !endsInTail && err == nil:
-					t.Fatalf("mode %s level %d payload %s(%d): %s at step %d returned nil although the compressor's output so far (%s) does not end in 0000ffff; destination got %s",
-						mode, level, class, len(payload), call, i, shortTail(em.all), short(rec.Bytes()))
+					t.Fatalf("mode %s (writer reuse %d) level %d payload %s(%d): %s at step %d returned nil although the compressor's output so far (%s) does not end in 0000ffff; destination got %s",
+						mode, reuse, level, class, len(payload), call, i, shortTail(em.all), short(rec.Bytes()))
 				case !endsInTail:
 					detected++
 					hx.Class("bad/reported-by=" + call)
@@ -1367,8 +1480,8 @@ func TestBadCompressor(t *testing.T) {
 		switch {
 		case detected > 0:
 			hx.Class("bad/outcome=reported")
-			hx.NonTrivial(hx.Hash("bad", mode, class, len(payload), level, goodFor, failedAt, len(steps), fmt.Sprintf("%x", bcExtra(bc)), bc.drop), func() interface{} {
-				return map[string]interface{}{"test": "bad-compressor", "mode": mode, "payload_class": class, "payload_len": len(payload), "level": level,
+			hx.NonTrivial(hx.Hash("bad", mode, reuse, class, len(payload), level, goodFor, failedAt, len(steps), fmt.Sprintf("%x", bcExtra(bc)), bc.drop), func() interface{} {
+				return map[string]interface{}{"test": "bad-compressor", "mode": mode, "writer_reuse": reuse, "payload_class": class, "payload_len": len(payload), "level": level,
 					"good_flushes_first": goodFor, "reported_at_step": failedAt, "steps": len(steps)}
 			})
 		case failedAt >= 0:
